@@ -366,12 +366,36 @@ func ruleDict(c *Ctx, p *core.Program, rule string) {
 	}
 	named := p.NamedType(core.PkgProto, "ColLowCardinality")
 	var upd *ssa.MapUpdate
-	for _, b := range prep.Blocks {
-		for _, in := range b.Instrs {
-			if mu, ok := in.(*ssa.MapUpdate); ok && recvFieldOfValue(mu.Map, named) != "" {
-				upd = mu
+	// the numbering may sit in Prepare or in a method of the same type it calls
+	var updSite ssa.Instruction // where, in Prepare, the numbering happens
+	for _, f := range append([]*ssa.Function{prep}, core.StaticReachList(prep)...) {
+		if f == nil || f.Blocks == nil || upd != nil {
+			continue
+		}
+		if f != prep && (core.RecvNamed2(f) == nil || core.RecvNamed2(f).Obj() != named.Obj()) {
+			continue
+		}
+		for _, b := range f.Blocks {
+			for _, in := range b.Instrs {
+				if mu, ok := in.(*ssa.MapUpdate); ok && recvFieldOfValue(mu.Map, named) != "" {
+					upd = mu
+				}
 			}
 		}
+		if upd != nil {
+			if f == prep {
+				updSite = upd
+			} else {
+				for _, call := range core.Calls(prep) {
+					if sf := core.StaticFn(call); sf != nil && (sf == f || core.StaticReach(sf, 2)[f]) {
+						updSite = call.(ssa.Instruction)
+					}
+				}
+			}
+		}
+	}
+	if upd != nil && updSite == nil {
+		upd = nil
 	}
 	if upd == nil {
 		c.R.Unk(rule, core.FuncName(prep), cfg, p.Pos(prep.Pos()), "no dictionary update found (anchor lost)")
@@ -397,7 +421,7 @@ func ruleDict(c *Ctx, p *core.Program, rule string) {
 		return
 	}
 	// (b) map and index cleared on every path to the update
-	target := func(in ssa.Instruction) bool { return in == ssa.Instruction(upd) }
+	target := func(in ssa.Instruction) bool { return in == updSite }
 	mapCleared := func(in ssa.Instruction) bool {
 		switch x := in.(type) {
 		case *ssa.Store:
